@@ -684,6 +684,14 @@ pub struct IncOutcome {
 
 /// Shared driver; `which` selects the oracle: "c02", "c03" or "c13".
 pub fn eval_inc(case: &IncCase, which: &str) -> CaseResult {
+    catch_case(
+        &format!("inc-{}:panic", which),
+        |msg| json!({"engine": format!("INC-{}", which), "case": serde_json::to_value(case).unwrap(), "message": msg}),
+        || eval_inc_inner(case, which),
+    )
+}
+
+fn eval_inc_inner(case: &IncCase, which: &str) -> CaseResult {
     let mut res = CaseResult::default();
     let w = match build_world(case, which) {
         Ok(w) => w,
@@ -908,6 +916,14 @@ pub fn replay_inc(v: &Value) -> Result<CaseResult, String> {
 
 /// The same histories through the real binary (main -> actors -> incremental step).
 pub fn eval_inc_bb(case: &IncCase, which: &str) -> CaseResult {
+    catch_case(
+        &format!("bb-{}:panic", which),
+        |msg| json!({"engine": format!("BBINC-{}", which), "case": serde_json::to_value(case).unwrap(), "message": msg}),
+        || eval_inc_bb_inner(case, which),
+    )
+}
+
+fn eval_inc_bb_inner(case: &IncCase, which: &str) -> CaseResult {
     let mut res = CaseResult::default();
     let w = match build_world(case, which) {
         Ok(w) => w,
